@@ -1,0 +1,29 @@
+//go:build verif
+
+package cff
+
+// Hooks for the verification harness of property C05 (Type 2 charstring
+// interpretation).  Add-only; compiled only with the build tag "verif".
+
+// VerifC05Decode runs the Type 2 interpreter on code with explicit local and
+// global subroutine tables and the given default / nominal widths.
+func VerifC05Decode(code []byte, subrs, gsubrs [][]byte, defaultWidth, nominalWidth float64) (*Glyph, error) {
+	info := &decodeInfo{
+		subr:         cffIndex(subrs),
+		gsubr:        cffIndex(gsubrs),
+		defaultWidth: defaultWidth,
+		nominalWidth: nominalWidth,
+	}
+	return info.decodeCharString(code)
+}
+
+// VerifC05GetSubr exposes getSubr (bias computation and range test).
+func VerifC05GetSubr(subrs [][]byte, biased int) ([]byte, error) {
+	return getSubr(cffIndex(subrs), biased)
+}
+
+// VerifC05MaxStack exposes the operand stack limit.
+const VerifC05MaxStack = maxStack
+
+// VerifC05MaxSteps exposes the limit on executed operands and operators.
+const VerifC05MaxSteps = maxT2Steps
